@@ -83,4 +83,43 @@ theorem s1_decisions_are_model (s : St α κ) :
   unfold decide1
   simp only [s1Accept, s1Abort, BExp.eval]
 
+/-! ### The handlers that restart the matching: the model's handler is the source's step sequence, interpreted -/
+
+/-- one step of such a handler on the model state (`q'` / `run`, `src`: what the event carries) -/
+def hstep (q' : Option κ) (cmd : Option (Nat × List α)) (s : St α κ) : HStep → St α κ
+  | .killMatcher => killMatcher s
+  | .killReader => { s with unread := [], buf := [], live := false }      -- the reader's unread input and buffer are dropped
+  | .clearAll => { s with clear := .clear }
+  | .clearIfNotNull => { s with clear := .ifNotNull }
+  | .resetPool => { s with pool := s.pool.reset }
+  | .clearPool => { s with pool := s.pool.clear }
+  | .zeroOptions => { s with numOptions := 0 }
+  | .startReader => match cmd with
+      | some (run, src) => { s with unread := src, buf := [], live := true, source := src, run := run }
+      | none => s
+  | .restartMatcher => restart (match q' with | some q => { s with q := q } | none => s)
+
+def hrun (q' : Option κ) (cmd : Option (Nat × List α)) (s : St α κ) (steps : List HStep) : St α κ :=
+  steps.foldl (hstep q' cmd) s
+
+/-- `on_query_change` (the new query reaches the matcher in its last step, `restart_matcher`): its steps, in the order the source
+    has them, make up the model's handler of a query change -/
+theorem on_query_change_is_model (s : St α κ) (q' : κ) :
+    hrun (some q') none s onQueryChange = handleUser s (.setQuery q') := by
+  simp only [hrun, onQueryChange, List.foldl, hstep, handleUser]
+
+/-- rotating the mode changes the matcher the same way (the mode is part of the model's query key) -/
+theorem rotate_mode_is_model (s : St α κ) (q' : κ) :
+    hrun (some q') none s rotateMode = handleUser s (.setQuery q') := by
+  simp only [hrun, rotateMode, List.foldl, hstep, handleUser]
+
+/-- `on_cmd_query_change`: reader and matcher killed, pending clear, pool cleared, new reader, restart -/
+theorem on_cmd_query_change_is_model (s : St α κ) (run : Nat) (src : List α) :
+    hrun none (some (run, src)) s onCmdQueryChange = handleUser s (.setCmd run src) := by
+  simp only [hrun, onCmdQueryChange, List.foldl, hstep, handleUser]
+  unfold killMatcher restart
+  cases h : s.mc with
+  | none => simp [readerDone]
+  | some r => cases r.phase <;> simp [readerDone]
+
 end SkimModel.Session
